@@ -29,6 +29,12 @@ def x_obligations(tier):
     for s, d, k, v, epre in filters:
         o.append(Obl(f"C10-list-filter[{s} -> {d}]", M, "list_filter", env={"VF_SEARCH": s, "VF_DERIVED": d, "VF_KEY": k, "VF_VAL": v, "VF_EPRE": epre, "VF_N": "1" if tier == "quick" else "2"}, timeout=T, path_timeout=200, family="C10-list",
                      bound=f"list = [{epre!r}+a, {epre!r}+b], every a, b"))
+    ufs = [("h/s/", "/**", "ext", "y"), ("h/", "/**", "ext", "m,c"), ("h/*/", "", "t", "s")]
+    if tier == "thorough":
+        ufs += [("h/s/q1/", "/*", "ext", "z"), ("h/a/", "/**", "version", "v1,v2"), ("h/", "/**", "n", "x"), ("h/s/q1/v1/", "", "ext", "y"), ("h/*/**/", "", "ext", "y")]
+    for pre, suf, k, v in ufs:
+        o.append(Obl(f"C10-unfold-filter[{pre!r}+t+{suf!r}?{k}={v}]", M, "unfold_filter", env={"VF_PRE": pre, "VF_SUF": suf, "VF_KEY": k, "VF_VAL": v, "VF_N": "1"}, timeout=T, path_timeout=300, family="C10-unfold",
+                     bound=f"search {pre!r}+t+{suf!r} with the filter {k}={v}; token t one symbolic character"))
     o.append(Obl("C10-reach", M, "reach", env={"VF_PRE": "h/", "VF_N": "1"}, timeout=150, expect="refute", family="C10-twin"))
     return o
 
